@@ -582,10 +582,10 @@ def modelledCombinators : List String :=
    "code_self", "code_now", "code_samplerate", "code_lift_f", "lift_f", "lift"]
 
 /-- combinators that `translate_code` emits for forms outside this model's fragment (records, array access, default
-parameters, `match`) -/
+parameters, `match`, a `let` whose pattern contains a record: `code_let_pattern`, repair of finding S7) -/
 def unmodelledCombinators : List String :=
   ["code_array_access", "code_field_access", "code_imcomplete_record", "code_lam_finish_defaults_typed",
-   "code_match", "code_record", "code_record_update"]
+   "code_let_pattern", "code_match", "code_record", "code_record_update"]
 
 /-- `Expr` variants of `ast.rs` that `Ex` has a constructor for (`QualifiedVar` is mangled to `var`; `BinOp`, `UniOp`,
 `Paren` are removed by `convert_operators` before staging) … -/
